@@ -51,6 +51,7 @@ package mr
 //@ func (guardedWriter).Write
 //@   prop C07
 //@   ensures [at-most-one-send] calls("send") <= 1 && (calls("send") == 1 ==> arg("send", 0) == v && calls("recv") == 0)
+//@   ensures [looks-at-context-and-done-first] calls(Done) == 1 && calls(on("poll", ret(Done))) >= 1 && calls(on("poll", w.done)) >= 1 && calls("poll") == 2 && (calls("send") == 1 ==> before("poll", "send") && arg("send", 0) == v && calls(on("send", w.channel)) == 1)
 
 // Worker pool of executeMappers: a pool slot is taken before an item is received; an exhausted source gives the
 // slot back; otherwise exactly one worker goroutine is spawned for the item, registered in the WaitGroup first.
@@ -101,7 +102,7 @@ package mr
 //@ func MapReduceChan
 //@   prop C07
 //@   opaque mapReduceWithPanicChan
-//@   ensures [wired] calls(mapReduceWithPanicChan) == 1 && arg(mapReduceWithPanicChan, 0) == source && fresh(arg(mapReduceWithPanicChan, 1)) && arg(mapReduceWithPanicChan, 2) == mapper && arg(mapReduceWithPanicChan, 3) == reducer && result0 == ret(mapReduceWithPanicChan, 0) && result1 == ret(mapReduceWithPanicChan, 1)
+//@   ensures [wired] calls(mapReduceWithPanicChan) == 1 && arg(mapReduceWithPanicChan, 0) == source && fresh(arg(mapReduceWithPanicChan, 1)) && arg(mapReduceWithPanicChan, 2) == mapper && arg(mapReduceWithPanicChan, 3) == reducer && arg(mapReduceWithPanicChan, 4) == opts && result0 == ret(mapReduceWithPanicChan, 0) && result1 == ret(mapReduceWithPanicChan, 1)
 // MapReduceVoid: "no output" is the normal outcome of a void reducer, every other error is the caller's.
 //@ func MapReduceVoid
 //@   prop C07
